@@ -31,7 +31,7 @@ func init() {
 }
 
 func init() {
-	register("C18", Rule{Name: "E6", Run: runE6}, Rule{Name: "E3.state", Run: runGlobalState})
+	register("C18", Rule{Name: "E6", Run: runE6}, Rule{Name: "E6.crossfile", Run: runCrossFile}, Rule{Name: "E3.state", Run: runGlobalState})
 }
 
 func init() {
